@@ -67,13 +67,17 @@ Proof.
     generalize (x / 256 mod 256 ^ N.of_nat n). intro q. lia.
 Qed.
 
-Lemma take_n_app : forall (l rest : bytes), run (take_n (length l)) (l ++ rest) = Ok (l, rest).
+Lemma take_nat_app : forall (l rest : bytes), take_nat (length l) (l ++ rest) = Some (l, rest).
+Proof. induction l as [|b l IH]; intros rest; cbn [length app take_nat]; auto. rewrite IH. reflexivity. Qed.
+Lemma take_nat_some : forall n bs p q, take_nat n bs = Some (p, q) -> bs = p ++ q /\ length p = n.
 Proof.
-  intros. unfold run, take_n. rewrite app_length.
-  replace (length l <=? length l + length rest)%nat with true by (symmetry; apply Nat.leb_le; lia).
-  cbn [fst]. rewrite firstn_app, Nat.sub_diag, firstn_all. cbn [firstn]. rewrite app_nil_r.
-  rewrite skipn_app, Nat.sub_diag, skipn_all. reflexivity.
+  induction n as [|n IH]; intros bs p q H; cbn [take_nat] in H.
+  - inversion H; subst. split; reflexivity.
+  - destruct bs as [|b bs]; [discriminate|]. destruct (take_nat n bs) as [[p' q']|] eqn:E; [|discriminate].
+    inversion H; subst. destruct (IH _ _ _ E) as [-> Hl]. split; cbn [app length]; auto.
 Qed.
+Lemma take_n_app : forall (l rest : bytes), run (take_n (length l)) (l ++ rest) = Ok (l, rest).
+Proof. intros. unfold run, take_n. rewrite take_nat_app. reflexivity. Qed.
 
 Lemma pow256_8 : 256 ^ N.of_nat 8 = two64.
 Proof. vm_compute. reflexivity. Qed.
@@ -158,16 +162,52 @@ Proof. intros A cap sz l H. eapply fitn_u64. exact H. Qed.
 Lemma isize_lt_two64 : isize_max < two64.
 Proof. vm_compute. reflexivity. Qed.
 
+Lemma len_N_cons : forall A (x : A) l, len_N (x :: l) - 1 = len_N l.
+Proof. intros. unfold len_N. cbn [length]. lia. Qed.
+Lemma len_N_cons_nz : forall A (x : A) l, (len_N (x :: l) =? 0) = false.
+Proof. intros. unfold len_N. cbn [length]. apply N.eqb_neq. lia. Qed.
+
+Lemma split_n_app : forall (s rest : bytes), split_n (s ++ rest) (len_N s) = Some (s, rest).
+Proof.
+  induction s as [|b s IH]; intros rest.
+  - cbn [app]. change (len_N (@nil N)) with 0. destruct rest; reflexivity.
+  - cbn [app split_n]. rewrite len_N_cons_nz, len_N_cons, IH. reflexivity.
+Qed.
+Lemma split_n_some : forall bs n p q, split_n bs n = Some (p, q) -> bs = p ++ q /\ len_N p = n.
+Proof.
+  induction bs as [|b bs IH]; intros n p q H; cbn [split_n] in H.
+  - destruct (n =? 0) eqn:E; [|discriminate]. inversion H; subst. apply N.eqb_eq in E. split; auto.
+  - destruct (n =? 0) eqn:E.
+    + inversion H; subst. apply N.eqb_eq in E. split; auto.
+    + destruct (split_n bs (n - 1)) as [[p' q']|] eqn:E2; [|discriminate]. inversion H; subst.
+      destruct (IH _ _ _ E2) as [-> Hl]. split; [reflexivity|].
+      apply N.eqb_neq in E. unfold len_N in *. cbn [length]. lia.
+Qed.
+
+(* list_fuel bs n = 1 + min (n, length bs) *)
+Lemma list_fuel_ge : forall k (bs : bytes), (k <= length bs)%nat -> list_fuel bs (N.of_nat k) = S k.
+Proof.
+  induction k as [|k IH]; intros bs H.
+  - destruct bs; reflexivity.
+  - destruct bs as [|b bs]; [cbn in H; lia|]. cbn [list_fuel].
+    replace (N.of_nat (S k) =? 0) with false by (symmetry; apply N.eqb_neq; lia).
+    replace (N.of_nat (S k) - 1) with (N.of_nat k) by lia. rewrite IH; auto. cbn in H; lia.
+Qed.
+Lemma list_fuel_spec : forall (bs : bytes) n,
+  n < N.of_nat (list_fuel bs n) \/ (length bs < list_fuel bs n)%nat.
+Proof.
+  induction bs as [|b bs IH]; intros n; cbn [list_fuel length].
+  - right. lia.
+  - destruct (n =? 0) eqn:E. { left. apply N.eqb_eq in E. subst. cbn. lia. }
+    apply N.eqb_neq in E. destruct (IH (n - 1)) as [H|H]; [left | right]; lia.
+Qed.
+
 Lemma RT_str : forall c s, strb (c_cap c) s = true -> RT (de_str c) (ser_str s) s.
 Proof.
   intros c s H. unfold strb in H. bsplit. unfold de_str, ser_str, de_usize, ser_usize.
   eapply RT_bind. { apply RT_u64. eapply fits_u64; eauto. }
   eapply RT_bind_eq with (s1 := []); [reflexivity | apply RT_alloc; auto | ].
-  intros rest. unfold run.
-  replace (len_N s <=? len_N (s ++ rest)) with true.
-  2:{ symmetry. apply N.leb_le. unfold len_N. rewrite app_length. lia. }
-  rewrite to_nat_len_N, firstn_app, Nat.sub_diag, firstn_all. cbn [firstn]. rewrite app_nil_r, H.
-  rewrite skipn_app, Nat.sub_diag, skipn_all. reflexivity.
+  intros rest. unfold run. rewrite split_n_app, H. reflexivity.
 Qed.
 
 Lemma RT_ident : forall c s, strb (c_cap c) s = true -> (c_validate c = true -> identb s = true) ->
@@ -177,11 +217,6 @@ Proof.
   replace (c_validate c && negb (identb s)) with false. apply RT_ret.
   symmetry. destruct (c_validate c) eqn:E; auto. rewrite Hv; auto.
 Qed.
-
-Lemma len_N_cons : forall A (x : A) l, len_N (x :: l) - 1 = len_N l.
-Proof. intros. unfold len_N. cbn [length]. lia. Qed.
-Lemma len_N_cons_nz : forall A (x : A) l, (len_N (x :: l) =? 0) = false.
-Proof. intros. unfold len_N. cbn [length]. apply N.eqb_neq. lia. Qed.
 
 Lemma RT_list_go : forall A (elem : M A) (ser : A -> bytes) l fuel,
   (forall x, In x l -> RT elem (ser x) x) -> (length l <= fuel)%nat ->
@@ -209,9 +244,10 @@ Lemma RT_list : forall A (elem : M A) (ser : A -> bytes) l,
   RT (de_list elem (len_N l)) (concat (map ser l)) l.
 Proof.
   intros A elem ser l He Hn rest. unfold de_list.
-  change (run (fun bs => de_list_go elem (S (length bs)) (len_N l) bs) (concat (map ser l) ++ rest))
-    with (run (de_list_go elem (S (length (concat (map ser l) ++ rest))) (len_N l)) (concat (map ser l) ++ rest)).
-  apply RT_list_go; auto. rewrite app_length. pose proof (concat_length_ge _ ser l Hn). lia.
+  change (run (fun bs => de_list_go elem (list_fuel bs (len_N l)) (len_N l) bs) (concat (map ser l) ++ rest))
+    with (run (de_list_go elem (list_fuel (concat (map ser l) ++ rest) (len_N l)) (len_N l)) (concat (map ser l) ++ rest)).
+  apply RT_list_go; auto. unfold len_N at 1. rewrite list_fuel_ge. lia.
+  rewrite app_length. pose proof (concat_length_ge _ ser l Hn). lia.
 Qed.
 
 Lemma forallb_In : forall A (f : A -> bool) l x, forallb f l = true -> In x l -> f x = true.
